@@ -39,7 +39,7 @@ def check_triple(ctx, b, l, r, md, kinds, flag_case=None):
     ctx.case(canon(b) + canon(l) + canon(r) + md, True)
     data = {'b': enc(b), 'l': enc(l), 'r': enc(r), 'helper': md, 'scenario': kinds}
     if res[0] != 'ok':
-        ctx.violation('default merge raised %s' % res[2], dict(data, kind='raises'))
+        ctx.violation('default merge raised %s' % res[2], dict(data, kind='merge-raises', site=mergelib.LAST_ERROR_SITE[0]))
         return
     merged, decisions = res[1], res[2]
     lb, ll, lr, lm = (set(mergelib.nonblank(mergelib.source_lines(x))) for x in (b, l, r, merged))
